@@ -11,6 +11,7 @@ EXPLANATION = ("C18: ring discipline of nni_lmq / nni_msgq (every cursor increme
                "id maps have the documented constant ranges, id allocation is guarded by an in-use test and a wrapping "
                "cursor that nothing but the allocator moves."
                " Also: the allocation cursor is seeded only on first use or wrap, and resize walks the old ring with its allocation size and wraps surviving cursors with the new extent (R8).")
+EXPLANATION += " Round 3: lmq_mask is the storage's extent minus one wherever storage is installed (R9); drain loops end only when the count is zero (R10)."
 
 RING = {"nni_lmq.lmq_msgs": ("nni_lmq.lmq_get", "nni_lmq.lmq_put", "nni_lmq.lmq_mask", "nni_lmq.lmq_len", "nni_lmq.lmq_cap"),
         "nni_msgq.mq_msgs": ("nni_msgq.mq_get", "nni_msgq.mq_put", "nni_msgq.mq_alloc", "nni_msgq.mq_len", "nni_msgq.mq_cap")}
